@@ -22,12 +22,17 @@ type RetryTransaction struct {
 	retryNum      uint
 	timer         *time.Timer
 	retryCallback RTRetryCallback
+	suspended     RTSuspendedFunc
 	State         interface{}
 	Data          interface{}
 }
 
 // Retry callback type.
 type RTRetryCallback func(data interface{}) error
+
+// RTSuspendedFunc tells whether the retries of the current transaction step are
+// suspended (see SetSuspended).
+type RTSuspendedFunc func(data interface{}) bool
 
 // ErrNoMoreRetries error signalizes that the retry callback was called retryCount
 // times in succession and another retryDelay passed without Proceed, Success nor
@@ -58,6 +63,17 @@ func NewRetryTransaction(ctx context.Context, retryDelay time.Duration, retryCou
 		}
 	}()
 	return t
+}
+
+// SetSuspended sets a function which tells whether the retries of the current
+// transaction step are suspended, e.g. because the receiver of the data is
+// known to be asleep. While it returns true, the timer keeps running but the
+// retry callback is not called and the elapsed retryDelays are not counted.
+func (t *RetryTransaction) SetSuspended(suspended RTSuspendedFunc) {
+	t.retryNumMutex.Lock()
+	defer t.retryNumMutex.Unlock()
+
+	t.suspended = suspended
 }
 
 // Transaction.Success() implementation.
@@ -122,6 +138,10 @@ func (t *RetryTransaction) timeout() {
 	// The timer could have fired just before the transaction was finished
 	// (or before the timer was restarted) => no retries after that.
 	if t.isDone() {
+		return
+	}
+	if t.suspended != nil && t.suspended(t.Data) {
+		t.restartTimer()
 		return
 	}
 	t.retryNum++
